@@ -224,10 +224,11 @@ def _b_circuits(w: int) -> list:
 
 
 def _b_chunk(arg: tuple) -> dict:
-    """All pairs for one (machine width, radix pattern, gate set)."""
+    """All pairs for one (machine width, radix pattern, gate set, number of
+    edges of the labelled graph or None for all)."""
     from bqskit.compiler.machine import MachineModel
     from bqskit.ir.circuit import Circuit
-    n, rad, gsi = arg
+    n, rad, gsi, ecount = arg
     gs = _B_GATESETS[gsi]
     native = [K.gate(g) for g in gs]
     res = {'pairs': 0, 'nontrivial': 0, 'true': 0, 'false': 0,
@@ -249,6 +250,8 @@ def _b_chunk(arg: tuple) -> dict:
                                   o[2] if len(o) > 2 else [])
                 circs.append((ops, c, O.flat_ops(c)))
             for edges in _labelled_graphs(n):
+                if ecount is not None and len(edges) != ecount:
+                    continue
                 model = MachineModel(n, [tuple(e) for e in edges],
                                      set(native), list(rad))
                 full = len(edges) == n * (n - 1) // 2
@@ -279,6 +282,8 @@ def _b_chunk(arg: tuple) -> dict:
 
 
 def _b_items(ctx: Ctx) -> list:
+    """quick: machines of <= 3 qudits completely, 4 qubits with the default
+    gate set; thorough: everything up to 4 qudits."""
     items = []
     for n in (1, 2, 3, 4):
         rads = [[2] * n]
@@ -287,9 +292,14 @@ def _b_items(ctx: Ctx) -> list:
             rads.append([3] + [2] * (n - 1))
         for rad in rads:
             for gsi in range(len(_B_GATESETS)):
-                if ctx.quick and n == 4 and (gsi != 0 or rad != [2] * n):
+                if n < 4:
+                    items.append((n, rad, gsi, None))
                     continue
-                items.append((n, rad, gsi))
+                if ctx.quick and (gsi != 0 or rad != [2] * n):
+                    continue
+                for ecount in range(7):
+                    items.append((n, rad, gsi, ecount))
+    items.sort(key=lambda x: -x[0])
     return items
 
 
@@ -300,8 +310,15 @@ def _b_signature(d: dict) -> str:
         why.append('mixed-radix')
     if any(len(o[1]) > 2 for o in ops):
         why.append('3-qudit-gate')
-    if d['placement'] is not None:
-        why.append('with-placement')
+    pl = d['placement']
+    if pl is not None:
+        # an edge (a<b) of the circuit lands on (pl[a] > pl[b])
+        rev = any(
+            pl[min(o[1][i], o[1][j])] > pl[max(o[1][i], o[1][j])]
+            for o in ops for i in range(len(o[1]))
+            for j in range(i + 1, len(o[1]))
+        )
+        why.append('placement-reverses-an-edge' if rev else 'with-placement')
     return (f'is_compatible-enumeration:says-{d["is_compatible"]}:'
             f'independent-{d["independent"]}:' + ','.join(why))
 
@@ -373,7 +390,7 @@ def run(ctx: Ctx) -> None:
                 'placement'})
 
     # ---- part A
-    D.explore(ctx, cases, judge, (100 if ctx.quick else 2400), rule=RULE)
+    D.explore(ctx, cases, judge, (80 if ctx.quick else 2400), rule=RULE)
     ctx.cov['evaluations'] += tot['pairs']
     ctx.cov['distinct_nontrivial'] += tot['nontrivial']
     ctx.cov['compile_evaluations'] = ctx.cov['evaluations'] - tot['pairs']
